@@ -141,14 +141,19 @@ pub struct MachineCfg {
     pub sc_atomics: bool,
     /// Must-side deviation D-rmw-reads-executed-max (attribution of known finding K5)
     pub rmw_reads_mo_max_only: bool,
+    /// [envelope] loom's scheduling granularity (known finding K6): a thread is never preempted
+    /// immediately before an operation that has no scheduling point in loom (unlock, cell
+    /// access, fence, spawn, unpark, ...). MUST walks use it, so that they only demand what is
+    /// reachable at that granularity; the complementary schedules are probed by K6's witnesses.
+    pub switch_only_at_branch_points: bool,
 }
 
 impl MachineCfg {
     pub fn must() -> MachineCfg {
-        MachineCfg { reading: Reading::Must, dev: Deviation::default(), sc_atomics: false, rmw_reads_mo_max_only: false }
+        MachineCfg { reading: Reading::Must, dev: Deviation::default(), sc_atomics: false, rmw_reads_mo_max_only: false, switch_only_at_branch_points: true }
     }
     pub fn may() -> MachineCfg {
-        MachineCfg { reading: Reading::May, dev: Deviation::default(), sc_atomics: false, rmw_reads_mo_max_only: false }
+        MachineCfg { reading: Reading::May, dev: Deviation::default(), sc_atomics: false, rmw_reads_mo_max_only: false, switch_only_at_branch_points: false }
     }
 }
 
@@ -168,6 +173,7 @@ pub struct Machine<'p> {
     arc: Vec<ArcSt>,
     track_live: Vec<bool>,
     block_live: Vec<bool>,
+    last_sc_fence: Option<usize>,
     pub results: Vec<Vec<Option<u64>>>,
     /// executed (thread, pc) in order
     pub trace: Vec<(u8, u16)>,
@@ -231,6 +237,7 @@ impl<'p> Machine<'p> {
                 .collect(),
             track_live: vec![false; p.n_track as usize],
             block_live: vec![false; p.n_block as usize],
+            last_sc_fence: None,
             results: p.threads.iter().map(|t| vec![None; t.len()]).collect(),
             trace: Vec::new(),
             race: None,
@@ -357,6 +364,42 @@ impl<'p> Machine<'p> {
             }
             _ => self.enabled(t),
         }
+    }
+
+    /// Does the next step of `t` correspond to a loom operation without a scheduling point?
+    pub fn next_is_nonbranching(&self, t: usize) -> bool {
+        let op = match self.cur_op(t) {
+            Some(op) => op,
+            None => return false,
+        };
+        let op = match self.effective(t, op) {
+            Some(op) => op,
+            None => return true,
+        };
+        matches!(
+            op,
+            Op::Fence { .. }
+                | Op::AWithMut { .. }
+                | Op::AUnsyncLoad { .. }
+                | Op::Spawn { .. }
+                | Op::Unpark { .. }
+                | Op::Unlock { .. }
+                | Op::RUnlock { .. }
+                | Op::WUnlock { .. }
+                | Op::CRead { .. }
+                | Op::CWrite { .. }
+                | Op::TryRecv { .. }
+                | Op::DropTx { .. }
+                | Op::TrackNew { .. }
+                | Op::TrackDrop { .. }
+                | Op::Alloc { .. }
+                | Op::Dealloc { .. }
+                | Op::ArcForget { .. }
+                | Op::ArcRawRoundTrip { .. }
+                | Op::StopExploring
+                | Op::Explore
+                | Op::SkipBranch
+        )
     }
 
     /// The thread has invoked a compound op whose hidden first phase has not happened yet.
@@ -601,7 +644,17 @@ impl<'p> Machine<'p> {
             }
             Op::FetchUpdate { .. } => unimplemented!("FetchUpdate in reference machine"),
             Op::Fence { o } => {
-                self.push_ev(t, pc, EK::F, NOLOC, o);
+                let e = self.push_ev(t, pc, EK::F, NOLOC, o);
+                // [envelope] MUST (largest hb): SeqCst fences synchronise in their total order (the
+                // "SC fence = acq-rel RMW on one global location" reading loom documents)
+                if o.is_sc() {
+                    if self.cfg.reading == Reading::Must {
+                        if let Some(prev) = self.last_sc_fence {
+                            self.g.extra.push((prev, e));
+                        }
+                    }
+                    self.last_sc_fence = Some(e);
+                }
             }
             Op::AWithMut { a, v } => {
                 self.do_write(t, pc, a, MO::Rlx, v, true, ch);
@@ -1133,7 +1186,11 @@ pub fn random_walk<'p>(m: &mut Machine<'p>, rng: &mut crate::rng::Rng, strat: St
         if en.is_empty() {
             break;
         }
-        let t = match strat {
+        let forced = match cur {
+            Some(c) if m.cfg.switch_only_at_branch_points && en.contains(&c) && m.next_is_nonbranching(c) => Some(c),
+            _ => None,
+        };
+        let t = if let Some(c) = forced { c } else { match strat {
             Strategy::Uniform => *rng.pick(&en),
             Strategy::RunToBlock => match cur {
                 Some(c) if en.contains(&c) && !rng.chance(1, 4) => c,
@@ -1152,7 +1209,7 @@ pub fn random_walk<'p>(m: &mut Machine<'p>, rng: &mut crate::rng::Rng, strat: St
                 }
                 *en.iter().max_by_key(|&&t| prio[t]).unwrap()
             }
-        };
+        } };
         cur = Some(t);
         let mut ch = RandomChoose(rng);
         let was_na = m.has_na_events();
